@@ -41,6 +41,7 @@ GENERATORS = [
     ('gen_py_langwalk', 'PyLangWalk.lean'),
     ('gen_py_nth', 'PyNth.lean'),
     ('gen_py_combinators', 'PyCombinators.lean'),
+    ('gen_py_handlers', 'PyHandlers.lean'),
 ]
 
 
